@@ -396,7 +396,10 @@ inline CLib from_model(const model::MLib& m, const Options& opt) {
                 for (auto& q : p.pts) pts.push_back(rgrid(q));
                 bool ok;
                 std::string line = poly_line(p.layer, p.dtype, pts, rep_grid(p.rep), props, ok);
-                if (ok) cc.polys.push_back(line);
+                if (ok) {
+                    cc.polys.push_back(line);
+                    cc.poly_pts[line] = pts;
+                }
             }
         }
         for (auto& p : mc.paths) {
